@@ -75,7 +75,8 @@ def scan(repo='/repo'):
                         continue
                     o = out_kw[0]
                     if not isinstance(o, ast.Name):
-                        res.append((oid, False, ['%s:%d out= is not a plain name; cannot trace its initialisation' % (rel, c.lineno)]))
+                        kind = classify_rhs(o)
+                        res.append((oid, kind == 'init', ['%s:%d out=%s (%s)' % (rel, c.lineno, ast.unparse(o)[:60], kind)]))
                         continue
                     defs = [a for a in ast.walk(fn) if isinstance(a, ast.Assign) and a.lineno < c.lineno and
                             any(isinstance(t, ast.Name) and t.id == o.id for t in a.targets)]
